@@ -132,6 +132,8 @@ class C17(Property):
         'distinguish backends. Decided by the oracle only: every function is called at every generated point with backend="numpy", '
         '"math", "sympy" (strings), the modules numpy, math, sympy, backend=None and with the argument omitted; all must return and '
         'agree to 1e-9. How the source obtains and uses the backend is pinned textually by the *_sig_guard theorems (@backend entry).',
+        'get_backend fallback: with numpy not importable, backend=None / omitted must use the math module and give the math value '
+        '(oracle, by hiding numpy in sys.modules for the call); no theorem (configuration of the interpreter)',
         'defaults n=1 (binary_irrev_cstr), t0=0 and the unused P0=1 (dimerization_irrev): passed explicitly in the theorems; their '
         'default values are pinned by the *_sig_guard theorems and exercised by the oracle only',
         'binary_irrev_cstr above the steady state (2*k*r**2 + fv*r >= fv*fr): no theorem (known finding, the Python returns nan / raises)',
@@ -399,6 +401,12 @@ class C17(Property):
                         if not all(close(x, y, 1e-9, 1e-9 * scale) for x, y in zip(vals[be], want)):
                             return ('binary_irrev_cstr(t=%r, %r, backend=%s) = %r long after the transient (fv*t = %.3g), steady state is %r'
                                     % (t, a, be, vals[be], float(fv_ * t), want))
+        # (1e) configuration without numpy: `backend=None` / omitted then falls back to the math module (get_backend, ImportError
+        #      branch) and must give the value of backend='math'
+        if fn != 'dimerization_irrev':
+            f = self._without_numpy(fn, t, a, vals['math'], scale)
+            if f is not None:
+                return f
         # (1d) argument TYPES and input immutability (numpy arrays of every shape, numpy scalars, int dtype, Fractions)
         f = self._argument_types(fn, c, t, a, scale)
         if f is not None:
@@ -505,6 +513,38 @@ class C17(Property):
                 return ('%s = %r differs from %s = %r: the documented signature is %s(%s)'
                         % (show(args, kwargs), got, show([], exp), want, fn,
                            ', '.join(n_ if d is REQUIRED else '%s=%r' % (n_, d) for n_, d in sig)))
+        return None
+
+    def _without_numpy(self, fn, t, a, want, scale):
+        import sys
+        import math as _math
+        from chempy import _util
+        from chempy.kinetics import integrated as I
+        names, nres = FUNCS[fn]
+        vals = [a[k] for k in names]
+        saved = sys.modules.get('numpy', _util)          # _util used as "absent" marker
+        sys.modules['numpy'] = None                        # `import numpy` now raises ImportError
+        try:
+            be = _util.get_backend(None)
+            if be is not _math:
+                return 'get_backend(None) without an importable numpy returns %r, documented fallback is the math module' % (be,)
+            out = []
+            for kw in ({'backend': None}, {}):
+                try:
+                    r = getattr(I, fn)(t, *vals, **kw)
+                except Exception as e:
+                    return '%s(t=%r, %r%s) without an importable numpy raised %s: %s' % (
+                        fn, t, a, ', backend=None' if kw else '', exc_name(e), str(e)[:80])
+                r = list(r) if nres > 1 else [r]
+                out.append([float(x) for x in r])
+        finally:
+            if saved is _util:
+                del sys.modules['numpy']
+            else:
+                sys.modules['numpy'] = saved
+        for r in out:
+            if not all(close(x, y, 1e-12, 1e-12 * scale) for x, y in zip(r, want)):
+                return '%s(t=%r, %r) without an importable numpy (math fallback) gives %r, backend="math" gives %r' % (fn, t, a, r, want)
         return None
 
     def _argument_types(self, fn, c, t, a, scale):
